@@ -56,9 +56,13 @@ fn dup_logical(rng: &mut Rng, i: u64, codec: u8) -> Logical {
         l.class = format!("singles-{n}-then-run");
         return l;
     }
+    if i % 240 == 61 {
+        // more than 2^18 distinct contents, part of them recurring later under non-adjacent ids
+        return crate::checks::c16::many_contents(rng, codec, 266_000);
+    }
     if i % 24 == 13 {
-        // one very long run whose length sits on a power-of-two / integer-width boundary
-        let n = [255u64, 256, 257, 65_535, 65_536, 65_537, 70_000, 131_073][((i / 24) % 8) as usize];
+        // one very long run whose length sits on a power-of-two / integer-width boundary (the last one beyond 2^20)
+        let n = [255u64, 256, 257, 65_535, 65_536, 65_537, 70_000, 131_073, 1_048_613][((i / 24) % 9) as usize];
         l.tiles.clear();
         let start = rng.below(1 << 30);
         // short contents: the oracle hashes every tile's content
